@@ -7,6 +7,7 @@ import NakenVerif.Sim.Tms1000Impl
 import NakenVerif.Sim.I8008Impl
 import NakenVerif.Sim.Lc3Impl
 import NakenVerif.Sim.M6502Impl
+import NakenVerif.Sim.StubsImpl
 namespace Driver.SimX
 open Driver.Sim NakenVerif.Sim
 
@@ -109,6 +110,24 @@ def m6502 (kv : KV) (cells : List (BitVec 32 × BitVec 8)) : String :=
         ("cyc", s.cycleCount.toNat), ("stop", b2n s.stopRunning), ("show", b2n s.showOn)] ++
       " mem=" ++ renderMem m (cells.map (·.1)) (o.writes.map (·.1))
 
+def tms9900 (kv : KV) (cells : List (BitVec 32 × BitVec 8)) : String :=
+  let s : Tms9900.State := {
+    pc := .ofNat 16 (getU kv "pc"), wp := .ofNat 16 (getU kv "wp"), st := .ofNat 16 (getU kv "st"),
+    stopRunning := bit kv "stop", showOn := bit kv "show" }
+  let m := memOf cells
+  finish (.ok (Tms9900.step m s)) m (cells.map (·.1)) fun s =>
+    kvOut [("pc", s.pc.toNat), ("wp", s.wp.toNat), ("st", s.st.toNat), ("cyc", getU kv "cyc"), ("stop", b2n s.stopRunning),
+      ("show", b2n s.showOn)]
+
+def ebpf (kv : KV) (cells : List (BitVec 32 × BitVec 8)) : String :=
+  let s : Ebpf.State := {
+    pc := .ofNat 32 (getU kv "pc"), reg := Vector.ofFn (fun i : Fin 16 => .ofNat 64 (getEl kv "reg" i.val 8)),
+    stopRunning := bit kv "stop", showOn := bit kv "show" }
+  let m := memOf cells
+  finish (.ok (Ebpf.step m s)) m (cells.map (·.1)) fun s =>
+    kvOut [("pc", s.pc.toNat), ("cyc", getU kv "cyc"), ("stop", b2n s.stopRunning), ("show", b2n s.showOn)] ++ "," ++
+      arrOut "reg" 8 (s.reg.map fun v => v.truncate 32)
+
 def handle (args : List String) : String :=
   match args with
   | [cpu, st, cells] =>
@@ -119,6 +138,8 @@ def handle (args : List String) : String :=
       else if cpu == "8008" then i8008 kv cells
       else if cpu == "lc3" then lc3 kv cells
       else if cpu == "6502" then m6502 kv cells
+      else if cpu == "tms9900" then tms9900 kv cells
+      else if cpu == "ebpf" then ebpf kv cells
       else "not-modelled"
     | none => "bad-op"
   | _ => "bad-op"
